@@ -86,7 +86,16 @@ pub fn judge(p: &Program) -> Outcome {
             ),
             _ => Outcome::ok("backend-panic (C01)", None),
         },
-        Run::EvalError(..) => Outcome::ok("evaluation error", None),
+        Run::EvalError(e, _) => match refsem::meaning(p) {
+            // accepted by every static phase, and the reference defines a document
+            Ok(_) => Outcome::bad(
+                "no-document",
+                format!("no document | evaluation error {} | the reference defines a document", pipeline::kind_name(&e.kind)),
+                format!("accepted by load and compile, then: {e}"),
+                case(),
+            ),
+            _ => Outcome::ok("evaluation error", None),
+        },
         Run::Doc(yaml, _) => {
             let y: serde_yaml::Value = match serde_yaml::from_str(&yaml) {
                 Ok(y) => y,
